@@ -2,13 +2,18 @@
 (* Validates the strings xsl:number produced against Numbering.tla (XSLT 7.7 / 7.7.1).           *)
 (*   [e |-> "Number", doc, node, instr, fmt, out]   one per numbered node, in visiting order       *)
 (*   [e |-> "Format", value, fmt, out]              xsl:number value="..." format="..."            *)
+(*   [e |-> "Group", value, gsep, gsize, out]       xsl:number value grouping-separator grouping-size *)
 EXTENDS Numbering, Json, IOUtils
 VARIABLES l, st, failed, done
 
 Forest == TLCGet(2)
 
 C17Step(s, ev) ==
-  IF ev.e = "Format"
+  IF ev.e = "Group"
+  THEN LET want == GroupDigits(Decimal(ev.value), ev.gsize, ev.gsep) IN
+       [ok |-> want = ev.out, st |-> s, cont |-> TRUE, drop |-> FALSE,
+        msg |-> "grouping: value " \o ToString(ev.value) \o " size " \o ToString(ev.gsize) \o " want " \o ToString(want) \o " got " \o ToString(ev.out)]
+  ELSE IF ev.e = "Format"
   THEN LET \* value= is an expression: "the value is rounded to an integer (as by round())" - ev.value8 is the value in eighths
            n == IF "value8" \in DOMAIN ev THEN Round(Fin(FALSE, ev.value8)).m \div 8 ELSE ev.value
            want == FormatList(<<n>>, ev.fmt) IN
